@@ -58,3 +58,11 @@ def table_key(elem, charge):
 def capacity(table, elem, charge):
     k = table_key(elem, charge)
     return table[k] if k in table else table["?"]
+
+
+# characters for edit-distance-1 neighbourhoods: all of ASCII (control characters included) and one representative of each
+# kind of non-ASCII character a str method may treat specially (spaces of several kinds, line / paragraph separators, digits
+# and digit-likes, a letter, a combining mark, BOM, an astral character, a lone surrogate)
+EDIT_CHARS = [chr(c) for c in range(128)] + [
+    "\x85", "\xa0", "\u1680", "\u2003", "\u2028", "\u2029", "\u202f", "\u3000", "\ufeff", "\u0661", "\uff15", "\u00b2",
+    "\u2160", "\u00e9", "\u0301", "\u0130", "\U0001f600", "\ud800"]
